@@ -225,10 +225,10 @@ func (g *G) FirstWith(sub string) int {
 }
 
 // BlockedInEcalMutex tells whether g is parked acquiring the sync.Mutex of a
-// `mutex` block: scheduler state "sync.Mutex.Lock" (or the older
-// "semacquire") and the innermost non-runtime/sync frame is mutexRuntime.Eval.
+// `mutex` block: scheduler state "sync.Mutex.Lock" with a sync.(*Mutex).Lock
+// frame, and the innermost non-runtime/sync frame is mutexRuntime.Eval.
 func (g *G) BlockedInEcalMutex() bool {
-	if g.State != "sync.Mutex.Lock" && g.State != "semacquire" {
+	if !g.inSyncLock() {
 		return false
 	}
 	for _, f := range g.Frames {
@@ -275,10 +275,19 @@ func GoroutineSet() map[uint64]bool {
 	return res
 }
 
-func lockState(s string) bool {
-	switch s {
-	case "sync.Mutex.Lock", "sync.RWMutex.Lock", "sync.RWMutex.RLock", "semacquire":
-		return true
+// inSyncLock tells whether g is parked acquiring a sync.Mutex / sync.RWMutex:
+// the scheduler's wait reason names the lock operation (the generic
+// "semacquire" is NOT accepted: the runtime also uses it for its own
+// semaphores, e.g. while a goroutine waits for a GC phase) and the stack has
+// the matching sync frame.
+func (g *G) inSyncLock() bool {
+	switch g.State {
+	case "sync.Mutex.Lock":
+		return g.Has("sync.(*Mutex).Lock")
+	case "sync.RWMutex.Lock":
+		return g.Has("sync.(*RWMutex).Lock")
+	case "sync.RWMutex.RLock":
+		return g.Has("sync.(*RWMutex).RLock")
 	}
 	return false
 }
@@ -320,7 +329,7 @@ func LockStuckStacks(pre map[uint64]bool) (stuck bool, frame string, parked int,
 		if i < 0 {
 			continue
 		}
-		if !lockState(g.State) || !g.lockTakenByEcal() {
+		if !g.inSyncLock() || !g.lockTakenByEcal() {
 			return false, "", 0, nil
 		}
 		parked++
